@@ -19,7 +19,9 @@ from .. import impl_lnd as LN
 from .. import impl_tri as X
 from ..core import Check
 
-THEOREMS: dict = {}
+THEOREMS = {n: "Props.C04" for n in [
+    "C04_one_loss_per_simplex", "C04_loss_is_max", "C04_ask_count_corners_first", "C04_queue_complete",
+    "C04_next_point_in_worst_simplex", "C04_next_point_in_worst_simplex_refuted_unfixed"]}
 
 PREAMBLE = """From Coq Require Import ZArith PrimFloat List. Import ListNotations.
 From AV Require Import Base.Prelude Base.FloatUtil Model.Tri Model.LND Run.TriRun Run.LNDRun.
@@ -179,10 +181,7 @@ def nontrivial(r, hooks):
 
 
 def run(chk: Check) -> int:
-    if THEOREMS:
-        chk.prove(["theories/Props/C04.vo", "theories/Run/LNDRun.vo"], THEOREMS)
-    else:
-        chk.prove(["theories/Run/LNDRun.vo"], {})
+    chk.prove(["theories/Props/C04.vo", "theories/Run/LNDRun.vo"], THEOREMS)
     unfixed5, unfixed12 = probe_f5(), probe_f12()
     ncases = 220 if chk.quick else 2000
     maxlen = 22 if chk.quick else 60
